@@ -797,6 +797,8 @@ impl<'a, R: ?Sized + std::io::BufRead> Tokenizer<'a, R> {
                     && self.cross_state.current_here_tags[0].remove_tabs
                     && (!state.started_token() || state.current_token().ends_with('\n'))
                     && c == '\t'
+                    && (self.cross_state.current_here_tags[0].tag_was_escaped_or_quoted
+                        || !ends_with_line_continuation(state.current_token()))
                 {
                     // Consume it but don't include it.
                     self.consume_char()?;
@@ -1230,6 +1232,7 @@ impl<'a, R: ?Sized + std::io::BufRead> Tokenizer<'a, R> {
         }
 
         let next_here_tag = &self.cross_state.current_here_tags[0];
+        let tag_is_quoted = next_here_tag.tag_was_escaped_or_quoted;
 
         let tag_str: Cow<'_, str> = if next_here_tag.tag_was_escaped_or_quoted {
             unquote_str(next_here_tag.tag.as_str()).into()
@@ -1252,6 +1255,13 @@ impl<'a, R: ?Sized + std::io::BufRead> Tokenizer<'a, R> {
             if current_token_without_here_tag.is_empty()
                 || current_token_without_here_tag.ends_with('\n')
             {
+                // With an unquoted delimiter, a line ending in an unescaped backslash is
+                // continued by the next one; what follows it is not the delimiter line.
+                if !tag_is_quoted && ends_with_line_continuation(current_token_without_here_tag)
+                {
+                    return Ok(false);
+                }
+
                 state.replace_with_here_doc(current_token_without_here_tag.to_owned());
 
                 // Delimit the end of the here-document body.
@@ -1349,6 +1359,13 @@ const fn does_char_newly_affect_quoting(state: &TokenParseState, c: char) -> boo
 
 const fn is_quoting_char(c: char) -> bool {
     matches!(c, '\\' | '\'' | '\"')
+}
+
+/// Checks whether the given here-document text ends with a line that is continued on the
+/// next one, i.e. with an unescaped backslash followed by a newline.
+fn ends_with_line_continuation(s: &str) -> bool {
+    s.strip_suffix('\n')
+        .is_some_and(|l| (l.len() - l.trim_end_matches('\\').len()) % 2 == 1)
 }
 
 /// Return a string with all the quoting removed.
